@@ -78,18 +78,34 @@ func ruleAtoms(c *Ctx) {
 			// masked-word test OR-ed with the follow test compared with 0, or bytes.Equal AND follow test
 			follow := fmt.Sprintf("isNotStructuralOrWhitespace(P:buf[%d])", n)
 			rr := reCallNum.ReplaceAllString(r, "")
-			forms := []string{
-				"(0==" + follow + ")",
-				fmt.Sprintf("(((((encoding/binary.littleEndian).Uint64(P:buf)&%d)^%d)|%s)==0)", int64(1)<<40-1, le(spec.lit), follow),
-				fmt.Sprintf("((0==%s)&&bytes.Equal(P:buf[:%d],[]byte(\"%s\")))", follow, n, spec.lit),
+			// the accepting expression as a set of conjuncts (top-level && of the returned value); every conjunct must be
+			// one of: the follow test, a literal test, or the masked word test that contains both
+			masked := fmt.Sprintf("(((((encoding/binary.littleEndian).Uint64(P:buf)&%d)^%d)|%s)==0)", int64(1)<<40-1, le(spec.lit), follow)
+			lit32 := []string{
+				fmt.Sprintf("(%d==binary.LittleEndian.(encoding/binary.littleEndian).Uint32(P:buf))", le(spec.lit)),
+				fmt.Sprintf("(%d==(encoding/binary.littleEndian).Uint32(P:buf))", le(spec.lit)),
 			}
-			okForm := false
-			for _, f := range forms {
-				if rr == f {
-					okForm = true
+			litBytes := []string{
+				fmt.Sprintf("bytes.Equal(P:buf[:%d],[]byte(\"%s\"))", n, spec.lit),
+				fmt.Sprintf("(\"%s\"==string(P:buf[:%d]))", spec.lit, n),
+			}
+			okForm := true
+			hasFollow, hasLit := false, false
+			for _, cj := range splitTopAnd(rr) {
+				switch {
+				case cj == "(0=="+follow+")":
+					hasFollow = true
+				case cj == masked:
+					hasFollow, hasLit = true, true
+				case containsStr(litBytes, cj):
+					hasLit = true
+				case n == 4 && containsStr(lit32, cj):
+					hasLit = true
+				default:
+					okForm = false
 				}
 			}
-			if !okForm {
+			if !okForm || !hasFollow {
 				okAll = false
 				why = "the accepting expression " + trunc(rr, 140) + " is not literal-equal AND follow-byte-is-structural-or-white-space"
 			}
@@ -114,8 +130,10 @@ func ruleAtoms(c *Ctx) {
 			// the literal itself
 			litOK := false
 			switch {
-			case strings.Contains(r, `bytes.Equal(P:buf[:`+fmt.Sprint(n)+`],[]byte("`+spec.lit+`"))`):
+			case hasLit && (strings.Contains(rr, litBytes[0]) || strings.Contains(rr, litBytes[1])):
 				litOK = true
+			case hasLit && n == 4 && (strings.Contains(rr, lit32[0]) || strings.Contains(rr, lit32[1])):
+				litOK = minLen >= 4
 			case n == 4:
 				for _, cd := range sp.Conds {
 					if cd.Other == "" && cd.Op == token.EQL && strings.Contains(cd.L.String(), ".Uint32(P:buf)") && cd.R.IsConst() && cd.R.K == le(spec.lit) {
@@ -163,4 +181,31 @@ func narrowingConversions(p *GoProg, fd *ast.FuncDecl) []string {
 		return true
 	})
 	return out
+}
+
+// splitTopAnd splits a canonical boolean string at its top-level && operators: "((A&&B)&&C)" → A, B, C.
+func splitTopAnd(s string) []string {
+	s = strings.TrimSpace(s)
+	// find a top-level && inside one pair of enclosing parentheses
+	if len(s) >= 2 && s[0] == '(' && s[len(s)-1] == ')' {
+		depth := 0
+		inStr := false
+		for i := 1; i < len(s)-1; i++ {
+			switch {
+			case s[i] == '"':
+				inStr = !inStr
+			case inStr:
+			case s[i] == '(' || s[i] == '[':
+				depth++
+			case s[i] == ')' || s[i] == ']':
+				depth--
+				if depth < 0 {
+					return []string{s}
+				}
+			case depth == 0 && s[i] == '&' && s[i+1] == '&':
+				return append(splitTopAnd(s[1:i]), splitTopAnd(s[i+2:len(s)-1])...)
+			}
+		}
+	}
+	return []string{s}
 }
